@@ -32,6 +32,8 @@ pub fn take_events() -> u64 {
     EVENTS.with(|c| c.replace(0))
 }
 
+static PRINT: std::sync::OnceLock<bool> = std::sync::OnceLock::new();
+
 struct Sink;
 
 impl Visit for Sink {
@@ -67,7 +69,14 @@ impl Subscriber for Sub {
     }
     fn record_follows_from(&self, _span: &span::Id, _follows: &span::Id) {}
     fn event(&self, event: &Event<'_>) {
-        event.record(&mut Sink);
+        if *PRINT.get_or_init(|| std::env::var("VSIM_LOG").is_ok()) {
+            // diagnosis aid: VSIM_LOG=1 vsim replay FILE prints what the code under test logs
+            SINK.with(|s| s.borrow_mut().clear());
+            event.record(&mut Sink);
+            SINK.with(|s| eprintln!("[{}] {}", event.metadata().target(), s.borrow()));
+        } else {
+            event.record(&mut Sink);
+        }
         EVENTS.with(|c| c.set(c.get() + 1));
     }
     fn enter(&self, _span: &span::Id) {}
